@@ -151,6 +151,7 @@ type Sched struct {
 	pctPos          int
 	pctLow          int64
 	maxReady        int
+	parks           int64
 	tokenViolations int64
 	firstViolation  string
 	t0              time.Time
@@ -208,6 +209,9 @@ func NewSched(cfg Config) *Sched {
 }
 
 var genCounter atomic.Uint32
+
+// Debug turns the sampled token-holder identity check into an exhaustive one.
+var Debug = false
 
 func (s *Sched) tok(id int32) int64 { return int64(s.gen)<<32 | int64(id) }
 
@@ -300,7 +304,11 @@ func (s *Sched) parkCur(label int32, enabled func() bool) {
 	if t == nil {
 		return
 	}
-	if g := goid(); g != t.goid {
+	// identity check (the caller must be the goroutine that holds the token):
+	// runtime.Stack costs a full traceback, so it is sampled unless Debug is set
+	s.parks++
+	if (Debug || s.parks&63 == 0) && goid() != t.goid {
+		g := goid()
 		// a goroutine that does not hold the token reached a hook: some
 		// blocking operation or goroutine start escaped the instrumenter.
 		s.mu.Lock()
